@@ -418,6 +418,45 @@ fn generated(h: &mut Harness) {
     }
 }
 
+/// Eq / Hash / Clone of keys and signatures: equality is equality of the encodings; equal keys hash equal;
+/// clones sign, verify and serialise like the original (both front-ends)
+fn eq_hash_clone(h: &mut Harness) {
+    use std::collections::hash_map::DefaultHasher;
+    use std::hash::{Hash, Hasher};
+    let hash_of = |k: &dyn Fn(&mut DefaultHasher)| {
+        let mut st = DefaultHasher::new();
+        k(&mut st);
+        st.finish()
+    };
+    let quick = h.tier == Tier::Quick;
+    for i in 0..(if quick { 6 } else { 60 }) {
+        let (s1, s2) = (h.rng.bytes(32), h.rng.bytes(32));
+        let msg = h.rng.bytes(i * 5);
+        // zebra
+        let (ka, kb) = (z::StrandSignatureSk::strand_deserialize(&s1).unwrap(), z::StrandSignatureSk::strand_deserialize(&s2).unwrap());
+        let (pa, pa2, pb) = (z::StrandSignaturePk::from(&ka), z::StrandSignaturePk::strand_deserialize(&z::StrandSignaturePk::from(&ka).strand_serialize().unwrap()).unwrap(), z::StrandSignaturePk::from(&kb));
+        h.check(pa == pa2 && pa != pb, || "zebra: public-key equality is not equality of the encodings".to_string());
+        h.check(hash_of(&|st| pa.hash(st)) == hash_of(&|st| pa2.hash(st)), || "zebra: equal public keys hash differently".to_string());
+        h.check(hash_of(&|st| pa.hash(st)) != hash_of(&|st| pb.hash(st)), || "zebra: different public keys hash equal".to_string());
+        let kc = ka.clone();
+        h.check(kc.strand_serialize().unwrap() == s1 && kc.sign(&msg).strand_serialize().unwrap() == ka.sign(&msg).strand_serialize().unwrap(), || "zebra: a cloned signing key differs from the original".to_string());
+        let (pc, sg) = (pa.clone(), ka.sign(&msg));
+        let sgc = sg.clone();
+        h.check(pc == pa && pc.verify(&sgc, &msg).is_ok() && sgc.strand_serialize().unwrap() == sg.strand_serialize().unwrap(), || "zebra: cloned public key / signature differ from the original".to_string());
+        // dalek
+        let (ka, kb) = (d::StrandSignatureSk::strand_deserialize(&s1).unwrap(), d::StrandSignatureSk::strand_deserialize(&s2).unwrap());
+        let (pa, pa2, pb) = (d::StrandSignaturePk::from(&ka), d::StrandSignaturePk::strand_deserialize(&d::StrandSignaturePk::from(&ka).strand_serialize().unwrap()).unwrap(), d::StrandSignaturePk::from(&kb));
+        h.check(pa == pa2 && pa != pb, || "dalek: public-key equality is not equality of the encodings".to_string());
+        h.check(hash_of(&|st| pa.hash(st)) == hash_of(&|st| pa2.hash(st)), || "dalek: equal public keys hash differently".to_string());
+        h.check(hash_of(&|st| pa.hash(st)) != hash_of(&|st| pb.hash(st)), || "dalek: different public keys hash equal".to_string());
+        let kc = ka.clone();
+        h.check(kc.strand_serialize().unwrap() == s1 && kc.sign(&msg).strand_serialize().unwrap() == ka.sign(&msg).strand_serialize().unwrap(), || "dalek: a cloned signing key differs from the original".to_string());
+        let (pc, sg) = (pa.clone(), ka.sign(&msg));
+        let sgc = sg.clone();
+        h.check(pc == pa && pc.verify(&sgc, &msg).is_ok() && sgc.strand_serialize().unwrap() == sg.strand_serialize().unwrap(), || "dalek: cloned public key / signature differ from the original".to_string());
+    }
+}
+
 fn small_order(h: &mut Harness) {
     let quick = h.tier == Tier::Quick;
     let tors = torsion_encodings();
@@ -497,6 +536,7 @@ pub fn run(h: &mut Harness) {
         base64_stream(h);
         honest(h);
         generated(h);
+        eq_hash_clone(h);
         small_order(h);
         decoders(h);
     }));
